@@ -1,18 +1,100 @@
 #!/usr/bin/env python3
-"""Stratified sample of a domain's quick-tier request lines for the Miri run: at most K lines per
-operation token, short lines only, no hash-form sweeps.  usage: c19_miri_select.py <domain> <K> < all > sample"""
+"""Sample of a domain's quick-tier request lines for the Miri run (tools/c19_miri.sh).
+
+usage: c19_miri_select.py <domain> [<twdrv>] < all-requests > sample
+
+Stateless domains: at most K lines per operation token, short lines only, no hash-form sweeps, none
+of the operations that need C/C++ code behind FFI (Miri cannot interpret foreign functions).
+Stateful domains (`demo`): the first N whole sessions that qualify.
+(An optional model-output filter `model_prefix` — keep only requests whose model answer starts with a
+prefix — needs the driver binary; it is not used at present.)"""
+import subprocess
 import sys
 
-dom, k = sys.argv[1], int(sys.argv[2])
-# huffman: hash sweeps, and the operations that print what the C++ reference answers (under Miri the
-# reference is a stand-in)
-SKIP = {"huffman": {"hc", "hd", "hrd", "rd", "rc"}, "packer": {"hashrange_wi", "hash_ri_len", "hash_ri_sweep5"}}
-seen = {}
-for line in sys.stdin:
-    t = line.split()
-    if not t or len(line) > 240 or "hash" in t[0] or t[0] in SKIP.get(dom, ()):
-        continue
-    n = seen.get(t[0], 0)
-    if n < k:
-        seen[t[0]] = n + 1
-        sys.stdout.write(line)
+CFG = {
+    # hash-form sweeps are skipped everywhere (`hash` in the token) unless `keep_hash`
+    "packer": {"k": 20, "maxlen": 240},
+    # hc/hd/hrd: sweeps; rd/rc print what the C++ reference answers (a stand-in under Miri);
+    # tiefreq/repr walk the whole table (9 minutes under Miri for the two requests)
+    "huffman": {"k": 12, "maxlen": 240, "skip": {"hc", "hd", "hrd", "rd", "rc", "tiefreq", "repr"}},
+    "packet6": {"k": 20, "maxlen": 240},
+    "packet7": {"k": 10, "maxlen": 240},
+    # pair/sweep consult the C++ snapshot reference
+    "snap": {"k": 8, "maxlen": 420, "skip": {"pair", "sweep"}},
+    # `hash` is an ordinary run whose events are hashed; sweep/all2 are bulk forms
+    # `file` with a fragmentation other than `w` (whole) feeds the reader through a socket pair from a
+    # second thread: Miri reports that blocking read as a deadlock; `file … w` reads a real temp file
+    "teehist": {"k": 5, "maxlen": 1500, "skip": {"sweep", "all2"}, "keep_hash": True, "require_last": {"file": "w"}},
+    "demo": {"sessions": 10, "maxlen": 500, "skip": {"sweep", "mutall"}, "session_start": "new", "maxlines": 120},
+    # h*: hash-form sweeps
+    "browse": {"k": 15, "maxlen": 600, "skip": {"mfh", "hc", "hs"}},
+    "gamenet": {"k": 12, "maxlen": 600, "skip": {"hobjpos", "hbody"}},
+    "recv": {"sessions": 8, "maxlen": 700, "session_start": "new", "maxlines": 150},
+    "snapmgr": {"sessions": 5, "maxlen": 900, "session_start": "new", "maxlines": 150},
+    "snapmgrc": {"sessions": 4, "maxlen": 900, "session_start": "new", "maxlines": 120},
+    "conn6": {"sessions": 4, "maxlen": 900, "session_start": "new", "maxlines": 160},
+    "conn7": {"sessions": 4, "maxlen": 900, "session_start": "new", "maxlines": 160},
+    "net": {"sessions": 4, "maxlen": 900, "session_start": "new", "maxlines": 160},
+    "demohl": {"sessions": 3, "maxlen": 900, "skip": {"mutall"}, "session_start": "new", "maxlines": 120},
+    # zlib: harness-miri replaces the wrapper crate by a pure-Rust inflate for the whole graph
+    "datafile": {"k": 30, "maxlen": 700, "skip": {"hsweep", "sweep"}},
+    "map": {"k": 4, "maxlen": 1000, "skip": {"hsweep", "sweep"}},
+}
+
+
+def main():
+    dom = sys.argv[1]
+    drv = sys.argv[2] if len(sys.argv) > 2 else None
+    cfg = CFG[dom]
+    skip = cfg.get("skip", set())
+
+    def ok(line):
+        t = line.split()
+        if not t or len(line) > cfg["maxlen"] or t[0] in skip:
+            return False
+        if "hash" in t[0] and not cfg.get("keep_hash"):
+            return False
+        if "only" in cfg and t[0] not in cfg["only"]:
+            return False
+        if t[0] in cfg.get("require_last", {}) and t[-1] != cfg["require_last"][t[0]]:
+            return False
+        return True
+
+    lines = [l for l in sys.stdin if l.strip()]
+    if "session_start" in cfg:
+        sessions, cur = [], None
+        for l in lines:
+            if l.split()[0] == cfg["session_start"]:
+                cur = []
+                sessions.append(cur)
+            if cur is not None:
+                cur.append(l)
+        out, n = [], 0
+        for s in sessions:
+            if n >= cfg["sessions"]:
+                break
+            if len(out) + len(s) > cfg["maxlines"]:
+                continue
+            if all(ok(l) for l in s) and len(s) >= 3:
+                out += s
+                n += 1
+        sys.stdout.writelines(out)
+        return
+    cand = [l for l in lines if ok(l)]
+    if "model_prefix" in cfg:
+        cand = cand[:cfg["candidates"]]
+        if not drv:
+            sys.exit("datafile needs the driver binary")
+        p = subprocess.run([drv, dom], input="".join(cand), stdout=subprocess.PIPE, text=True)
+        outs = p.stdout.split("\n")
+        cand = [l for l, o in zip(cand, outs) if o.startswith(cfg["model_prefix"])]
+    seen = {}
+    for l in cand:
+        t = l.split()[0]
+        if seen.get(t, 0) < cfg["k"]:
+            seen[t] = seen.get(t, 0) + 1
+            sys.stdout.write(l)
+
+
+if __name__ == "__main__":
+    main()
